@@ -1411,26 +1411,8 @@ class GenFunctions(object):
 
         ast = node.ast
         result_typemap = ast.typemap
-        # shadow classes have not been added yet.
-        # Only care about string, vector here.
         result_is_ptr = ast.is_indirect()
-        if (
-            result_typemap
-            and result_typemap.base in ["string", "vector"]
-            and result_typemap.name != "char"
-            and not result_is_ptr
-        ):
-            node.wrap.c = False
-            #            node.wrap.fortran = False
-            self.config.log.write(
-                "Skipping {}, unable to create C wrapper "
-                "for function returning {} instance"
-                " (must return a pointer or reference)."
-                " Bufferify version will still be created.\n".format(
-                    result_typemap.cxx_type, ast.name
-                )
-            )
-        
+
         ast = node.ast
         cfi_args = {}
         for arg in ast.params:
@@ -1441,7 +1423,7 @@ class GenFunctions(object):
             elif arg_typemap.sgroup == "string":
                     cfi_args[arg.name] = True
             elif arg_typemap.sgroup == "char":
-                if arg.is_indirect():
+                if arg.is_indirect() and arg.get_indirect_stmt() != "**":
                     cfi_args[arg.name] = True
         has_cfi_arg = any(cfi_args.values())
 
@@ -1465,6 +1447,25 @@ class GenFunctions(object):
                 has_string_result):
             return False
 
+        # (after the test above: when this function returns False,
+        #  arg_to_buffer creates the bufferify function and needs wrap.c)
+        if (
+            result_typemap
+            and result_typemap.base in ["string", "vector"]
+            and result_typemap.name != "char"
+            and not result_is_ptr
+        ):
+            node.wrap.c = False
+            #            node.wrap.fortran = False
+            self.config.log.write(
+                "Skipping {}, unable to create C wrapper "
+                "for function returning {} instance"
+                " (must return a pointer or reference)."
+                " Bufferify version will still be created.\n".format(
+                    result_typemap.cxx_type, ast.name
+                )
+            )
+        
         options.wrap_fortran = False
 
         # Create a new C function and change arguments
@@ -1487,6 +1488,23 @@ class GenFunctions(object):
             arg_typemap = arg.typemap
             if cfi_args[arg.name]:
                 arg.stmts_suffix = generated_suffix
+            elif (arg_typemap.base == "vector" or
+                  arg.get_indirect_stmt() in ["**", "*&"]):
+                # There are no cfi statements for these arguments:
+                # use the bufferify statements as arg_to_buffer does.
+                sgroup = arg_typemap.sgroup
+                specialize = ""
+                if arg_typemap.base == "vector":
+                    node.wrap.c = False
+                    node.wrap.lua = False
+                    specialize = arg.template_arguments[0].typemap.sgroup
+                elif sgroup == "native" and arg.metaattrs["intent"] == "out":
+                    attrs["context"] = True
+                arg.stmts_suffix = "buf"
+                intent_blk = statements.lookup_fc_stmts(
+                    ["c", sgroup, arg.get_indirect_stmt(),
+                     arg.metaattrs["intent"], "buf", specialize])
+                statements.create_buf_variable_names(options, intent_blk, attrs)
             if arg_typemap.sgroup in ["char", "string"]:
                 # Create local variable names to be used in statements.
                 # TODO: move into metaattrs
